@@ -343,6 +343,11 @@ where
     // the assertion helpers agree with ==: no panic for equal displays / the display's own pattern
     ensure!(catch(|| display.assert_eq(&other)).is_ok(), "assert_eq:panics_on_equal", "assert_eq panics although all 4096 cells agree");
     ensure!(catch(|| display.assert_pattern(&rows)).is_ok(), "assert_pattern:panics_on_own_pattern", "assert_pattern panics on the rows of the display's own Debug output");
+    ensure!(catch(|| display.assert_eq_with_message(&other, |f| write!(f, "m"))).is_ok(), "assert_eq_with_message:panics_on_equal", "assert_eq_with_message panics although all 4096 cells agree");
+    ensure!(catch(|| other.assert_pattern_with_message(&rows, |f| write!(f, "m"))).is_ok(), "assert_pattern_with_message:panics_on_own_pattern", "assert_pattern_with_message panics on the rows of an equal display's Debug output");
+    // a clone is equal; a default display equals a new one and has no cell set
+    ensure!(display.clone() == display, "eq:clone", "a clone compares unequal");
+    ensure!(MockDisplay::<C>::default() == MockDisplay::<C>::new() && (MockDisplay::<C>::default() == display) == model.is_empty(), "eq:default", "MockDisplay::default() is not the empty display");
     // change one cell
     let q = Point::new(d.i(0, 63), d.i(0, 63));
     let old = model.get(&(q.x, q.y)).copied();
@@ -359,6 +364,10 @@ where
     other.set_pixel(q, new);
     ensure!(other != display, "eq:different_cells", "displays differing in cell {:?} ({:?} vs {:?}) compare equal", q, old, new);
     ensure!(catch(|| display.assert_eq(&other)).is_err(), "assert_eq:silent_on_difference", "assert_eq does not panic although cell {:?} differs ({:?} vs {:?})", q, old, new);
+    ensure!(catch(|| other.assert_eq(&display)).is_err(), "assert_eq:silent_on_difference", "assert_eq (arguments swapped) does not panic although cell {:?} differs ({:?} vs {:?})", q, old, new);
+    ensure!(catch(|| other.assert_pattern(&rows)).is_err(), "assert_pattern:silent_on_difference", "assert_pattern does not panic although cell {:?} differs from the pattern ({:?} vs {:?})", q, new, old);
+    ensure!(catch(|| display.assert_eq_with_message(&other, |f| write!(f, "m"))).is_err(), "assert_eq_with_message:silent_on_difference", "assert_eq_with_message does not panic although cell {:?} differs", q);
+    ensure!(catch(|| other.assert_pattern_with_message(&rows, |f| write!(f, "m"))).is_err(), "assert_pattern_with_message:silent_on_difference", "assert_pattern_with_message does not panic although cell {:?} differs from the pattern", q);
     let df = display.diff(&other);
     for y in 0..64 {
         for x in 0..64 {
